@@ -1,6 +1,7 @@
 """R-HT-WHILE-HELD (C05): the per-variant early triggers of a tap-hold (`handle_hold_tap`, the arms of the match on
 HoldTapConfig) decide Hold only from what was queued *while the key was held*: every scan of the event queue that an arm
-(or a closure of the function that an arm calls) starts is bounded - `iter()` flows straight into `take(..)` /
+(or a closure of the function that an arm calls) starts is bounded, and at least one bounded scan exists in the function
+(it may be built once ahead of the match and handed to the arms) - `iter()` flows straight into `take(..)` /
 `take_while(..)` - before anything is looked for in it. What is queued behind the key's own release happened after the key
 was let go and must not turn a tap that is already over into a hold (fix 71aa671, hunt/C05-1). The unbounded scans that are
 legitimate are outside the arms: the one that computes the bound (`position`) and the release-vs-timeout tail (`find`).
@@ -49,6 +50,9 @@ def rule_while_held(prog):
     for bi, t in _iter_calls(f):
         if bi in arm_of:
             sites.append((f, t, "arm/%s" % arm_of[bi]))
+        elif _bounded(f, t):
+            # the bounded iterator may be built once, ahead of the match, and handed to the arms
+            sites.append((f, t, "body"))
     for c in prog.closures_of(f):
         res.fn(c)
         for bi, t in _iter_calls(c):
